@@ -190,8 +190,8 @@ func makeGen(rnd *hx.Rand, version, prop string) genFunc {
 		rng := func() (string, string) {
 			for {
 				a, b := offsets[rnd.Intn(len(offsets))], lengths[rnd.Intn(len(lengths))]
-				if a == "max" && b == "max" {
-					continue // the known corner is exercised by the dedicated probe only
+				if a == "max" && b == "max" && !rnd.Chance(1, 3) {
+					continue // refused with NFS4ERR_BAD_RANGE since 3d4b513; asked for now and then
 				}
 				if b == "0" && !rnd.Chance(1, 4) {
 					continue
@@ -359,7 +359,14 @@ func makeGen(rnd *hx.Rand, version, prop string) genFunc {
 				// client: the lock-owner could then reach one file through two open-owners
 				opt = ""
 			}
-			return fmt.Sprintf("lock %d %d %d %d %s %s%s", id, s.req, lo, 1+rnd.Intn(4), a, b, opt)
+			lt := 1 + rnd.Intn(4)
+			lock := fmt.Sprintf("lock %d %d %d %d %s %s%s", id, s.req, lo, lt, a, b, opt)
+			if opt == "" && rnd.Chance(1, 4) {
+				// ask first: LOCKT by the same owner for the same type and range, then the LOCK
+				pending = append(pending, lock)
+				return fmt.Sprintf("lockt %d %d %d %d %d %s %s", s.c.long, s.c.ver, lo, s.leaf, lt, a, b)
+			}
+			return lock
 		case 6:
 			if len(locks) == 0 {
 				return ""
@@ -447,6 +454,10 @@ func makeGen(rnd *hx.Rand, version, prop string) genFunc {
 			opt := maybeBad()
 			if kind != "s" && rnd.Chance(1, 4) {
 				opt += " park"
+			}
+			if rnd.Chance(1, 6) {
+				// the file system fails the call (disk full, backing store unreachable, …)
+				opt += " fail"
 			}
 			return fmt.Sprintf("io %d %s %d %d%s", id, kind, x, f, opt)
 		case 11:
